@@ -76,6 +76,7 @@ impl Report {
         for w in what {
             // state of the bound(...) resolution carried across iterations concerns the bounds properties only
             if w.starts_with("loop-carried bounds flag") && self.prop != "C03" && self.prop != "C04" { self.notes.push(format!("ignored for this property: {w}")); continue; }
+            if w.starts_with("soft:") { self.notes.push(format!("not fatal: {w}")); continue; }
             // key without the trailing " at file:line"
             let k = w.split(" at ").next().unwrap_or(w);
             let site = w.rsplit(" at ").next().unwrap_or("-");
